@@ -416,6 +416,7 @@ class Check:
                                 known_findings_seen=known_seen, no_longer_checks=[b[0] for b in self.broken], **self.extra),
                   assumptions=self.notes, wall_s=round(time.time() - self.t0, 2), violations=nviol)
         # evidence/ describes runs against /repo itself; runs against a scratch copy (VERIF_REPO) are kept apart
-        edir = os.path.join(VERIF, "evidence") if os.path.realpath(REPO) == "/repo" else os.path.join(WORK, "evidence_scratch")
+        # evidence/ describes full runs against /repo itself; runs against a scratch copy and single-case replays go to the scratch directory
+        edir = os.path.join(VERIF, "evidence") if (os.path.realpath(REPO) == "/repo" and not getattr(self, "replay", None)) else os.path.join(WORK, "evidence_scratch")
         os.makedirs(edir, exist_ok=True)
         json.dump(ev, open(os.path.join(edir, f"{self.pid}.json"), "w"), indent=1, default=str)
